@@ -209,7 +209,7 @@ def main():
     if a.replay:
         common.do_replay(PID, a.replay)
     t0 = time.time()
-    merged = lib.merge(lib.run_sharded('c06', 'shard', a.tier, a.seed))
+    merged = lib.merge(lib.run_pool('c06', a.tier, a.seed))
     nops = len(c06_ops.table(torch))
     code = lib.finish(
         PID, a.tier, a.seed, 'other', merged, t0,
